@@ -656,12 +656,12 @@ func (s *DDSketchWithExactSummaryStatistics) Add(value float64) error {
 }
 
 func (s *DDSketchWithExactSummaryStatistics) AddWithCount(value, count float64) error {
-	if count == 0 {
-		return nil
-	}
 	err := s.DDSketch.AddWithCount(value, count)
 	if err != nil {
 		return err
+	}
+	if count == 0 {
+		return nil
 	}
 	s.summaryStatistics.Add(value, count)
 	return nil
